@@ -219,6 +219,14 @@ func (w *SenderWorker) Process(sqe *bus.SQE[t_aio.Submission, t_aio.Completion])
 		return
 	}
 
+	// the stored recv is client supplied (a callback registered with "recv": null decodes
+	// to neither form), this is a failed hand-off rather than an invariant violation
+	if logicalRecv == nil && physicalRecv == nil {
+		cqe.Error = fmt.Errorf("invalid receiver %s", sqe.Submission.Sender.Task.Recv)
+		w.aio.EnqueueCQE(cqe)
+		return
+	}
+
 	util.Assert((logicalRecv != nil) != (physicalRecv != nil), "one of logical or physical recv must be nil, but not both")
 
 	var recv *receiver.Recv
